@@ -66,6 +66,8 @@ typedef struct fx {
     vf_errlog elog;
     vnacal_t *vcp;
     vnacal_t *vcp2;
+    vnacal_t *vcp3;		/* another container, never touched by a call */
+    vnacal_new_t *vnpF;		/* solved, belongs to vcp3 */
     int ciA, ciB, ciStale, ciEnd, ciAlloc;
     vnacal_new_t *vnpL, *vnpS, *vnpR;
     vnacal_new_t *vnpT16, *vnpU16;	/* live, one partial-S standard each */
@@ -505,6 +507,31 @@ static const char *fx_build(fx_t *F)
     fx_write(F->path_badcal, "#VNACal 1.0\ncalibrations: [ { name: \n  ]]\n");
     fx_write(F->path_vercal, "#VNACal 99.0\ncalibrations: []\n");
     fx_write(F->path_yaml, "a: 1\nb: [x, y]\nc: { d: e }\n");
+    /* a solved vnacal_new_t of another container: "foreign" wherever a
+       call names an object of F->vcp */
+    {
+	static const int sol[3] = { VNACAL_SHORT, VNACAL_OPEN, VNACAL_MATCH };
+	static const double complex gam[3] = { -1.0, 1.0, 0.0 };
+
+	F->vcp3 = vnacal_create((vnaerr_error_fn_t *)vf_errfn, &F->elog);
+	F->vnpF = F->vcp3 == NULL ? NULL :
+	    vnacal_new_alloc(F->vcp3, VNACAL_T8, 1, 1, NF);
+	if (F->vnpF == NULL ||
+		vnacal_new_set_frequency_vector(F->vnpF, F->f3) != 0)
+	    return "foreign vnacal_new_t";
+	for (int k = 0; k < 3; ++k) {
+	    double complex *vec = fx_block(F, NF * sizeof(double complex));
+	    double complex **pp = fx_block(F, sizeof(double complex *));
+	    for (int i = 0; i < NF; ++i)
+		vec[i] = 0.05 + 0.9 * gam[k] / (1.0 - 0.1 * gam[k]);
+	    pp[0] = vec;
+	    if (vnacal_new_add_single_reflect_m(F->vnpF, pp, 1, 1, sol[k],
+			1) != 0)
+		return "foreign standard";
+	}
+	if (vnacal_new_solve(F->vnpF) != 0)
+	    return "foreign solve";
+    }
     if (F->elog.count != 0)
 	return "error callback during fixture build";
     vf_errlog_reset(&F->elog);
@@ -515,6 +542,8 @@ static void fx_teardown(fx_t *F)
 {
     if (F->vcp2 != NULL)
 	vnacal_free(F->vcp2);
+    if (F->vcp3 != NULL)
+	vnacal_free(F->vcp3);
     if (F->vcp != NULL)
 	vnacal_free(F->vcp);
     vnadata_free(F->vd);
